@@ -366,6 +366,19 @@ where
             }
         }
     }
+    // JSON claims through paseto-json's Json<T> (strings around every plausible buffer size) and JSON-ish footers
+    rec.emit(json!({"ev":"Reset","scenario":format!("rt-json-{}-{}", B::NAME, purpose)}));
+    let km = &kms[kms.len() - 1];
+    learn(rec, purpose, km);
+    let slens: Vec<usize> = if cfg.thorough { vec![0, 1, 100, 127, 128, 129, 254, 255, 256, 257, 258, 511, 512, 513, 1000, 4095, 4096, 4097, 65536, 100000] } else { vec![0, 17, 255, 256, 257, 1000, 70000] };
+    for (i, &sl) in slens.iter().enumerate() {
+        if slow && i % 2 == 1 {
+            continue;
+        }
+        let v = serde_json::json!({"data": "x".repeat(sl), "n": i, "nested": {"k": ["a", 1, null]}});
+        let footer = format!("{{\"kid\":\"{}\"}}", "k".repeat(if i % 2 == 0 { 3 } else { sl.min(600) }));
+        seal_json::<B, P>(rec, st, &km.seal, &km.unseal, &v, footer.as_bytes());
+    }
     // many signatures per randomized signer so that rare signature values (leading zero bytes) occur
     if purpose == "public" && (B::NAME == "v3lc" || B::NAME == "v3") {
         let n = if cfg.thorough { 20000 } else { 3000 };
@@ -385,6 +398,70 @@ where
                 }
                 i += 1;
             }
+        }
+    }
+}
+
+/// one honest round trip with JSON claims (paseto-json's Json<T> under a recording wrapper)
+fn seal_json<B: Backend, P: Purpose>(rec: &mut Recorder, st: &mut Stats, seal_key: &[u8], unseal_key: &[u8], v: &serde_json::Value, footer: &[u8])
+where
+    B::V: SealingVersion<P>,
+{
+    let purpose = purpose_name::<P>();
+    let key: Key<B::V, P::SealingKey> = key_from_bytes(seal_key).expect("sealing key parses");
+    let wire_claims = serde_json::to_vec(v).unwrap();
+    let (kid, cid, fid) = (rec.intern(seal_key), rec.intern(&wire_claims), rec.intern(footer));
+    rec.emit(json!({"ev":"SealCall","be":B::NAME,"ver":B::VER,"purpose":purpose,"key":kid,"claims":cid,"footer":fid,"aad":0,"ptype":"json"}));
+    spy_take();
+    rng::reset(rng::Source::Os, true, None, false);
+    let r = catch_unwind(AssertUnwindSafe(|| UnsealedToken::<B::V, P, SpyJson>::new(SpyJson(v.clone())).with_footer(SpyFooter(footer.to_vec())).seal(&key, &[])));
+    rng::passthrough();
+    emit_spy(rec, spy_take());
+    st.seals += 1;
+    let tok = match r {
+        Ok(Ok(t)) => t,
+        Ok(Err(e)) => {
+            rec.emit(json!({"ev":"SealRet","ok":false,"errc":errc(&e),"err":errname(&e),"wire":0,"footer":0,"fresh":[]}));
+            return;
+        }
+        Err(p) => {
+            rec.emit(json!({"ev":"Panic","where":"seal","be":B::NAME,"payload":panic_text(p)}));
+            return;
+        }
+    };
+    let text = tok.to_string();
+    let hdr = header::<B, P>();
+    let Some((payload, tfooter)) = split_token(&text, hdr.len()) else { return };
+    let (wid, tfid) = (rec.intern(&payload), rec.intern(&tfooter));
+    let fresh: Vec<u64> = if purpose == "local" { vec![rec.intern(payload.get(..nonce_len(B::VER)).unwrap_or(&payload))] } else { vec![] };
+    rec.emit(json!({"ev":"SealRet","ok":true,"wire":wid,"footer":tfid,"fresh":fresh,"len":payload.len(),"clen":wire_claims.len()}));
+    let sid = rec.intern(text.as_bytes());
+    rec.emit(json!({"ev":"ToString","str":sid,"ver":B::VER,"purpose":purpose,"wire":wid,"footer":tfid}));
+    // parse and unseal with the JSON payload type
+    st.presentations += 1;
+    let parsed = catch_unwind(AssertUnwindSafe(|| SealedToken::<B::V, P, SpyJson, SpyFooter>::from_str(&text)));
+    spy_take();
+    let Ok(Ok(t2)) = parsed else {
+        rec.emit(json!({"ev":"ParseRet","be":B::NAME,"str":sid,"ver":B::VER,"purpose":purpose,"ok":false,"wire":0,"footer":0}));
+        return;
+    };
+    let shown = t2.to_string();
+    let (p2, f2) = split_token(&shown, hdr.len()).unwrap_or_default();
+    let (w2, ff2) = (rec.intern(&p2), rec.intern(&f2));
+    rec.emit(json!({"ev":"ParseRet","be":B::NAME,"str":sid,"ver":B::VER,"purpose":purpose,"ok":true,"wire":w2,"footer":ff2,"pwire":wid,"pfooter":tfid}));
+    let ukey: Key<B::V, P> = key_from_bytes(unseal_key).unwrap();
+    let uk = rec.intern(unseal_key);
+    rec.emit(json!({"ev":"UnsealCall","be":B::NAME,"ver":B::VER,"purpose":purpose,"wire":wid,"footer":tfid,"key":uk,"aad":0,"note":{"cls":"honest-json"}}));
+    let r = catch_unwind(AssertUnwindSafe(|| t2.unseal(&ukey, &[], &AcceptJson)));
+    emit_spy(rec, spy_take());
+    match r {
+        Err(p) => rec.emit(json!({"ev":"Panic","where":"unseal","be":B::NAME,"payload":panic_text(p)})),
+        Ok(Err(e)) => rec.emit(json!({"ev":"UnsealRet","ok":false,"errc":errc(&e),"err":errname(&e),"claims":0,"footer":0})),
+        Ok(Ok(u)) => {
+            // the released claims, identified by their canonical serde_json bytes
+            let c = rec.intern(&serde_json::to_vec(&u.claims.0).unwrap());
+            let f = rec.intern(&u.footer.0);
+            rec.emit(json!({"ev":"UnsealRet","ok":true,"claims":c,"footer":f,"errc":""}));
         }
     }
 }
